@@ -146,8 +146,18 @@ impl Exec {
                 self.stats.rejected_weight += 1;
                 return Ok(St::RejWeight);
             }
-            self.stats.rejected_exists_at_worker += 1;
-            return Ok(St::RejExists);
+            let entry = &self.model.held[&k];
+            if !entry.soft_deleted && self.model.expired(entry) {
+                // the key reads as absent (past its time-to-live, not yet swept): C07 says its fate is decided by admission alone
+                ensure!(observed != St::RejExists, "C07", "C07/put/expired-unswept", "put(k={}) of a key past its time-to-live (not yet swept, reads as absent) was refused with KeyAlreadyExists by the worker", k);
+                // a conforming implementation replaces the dead incarnation: account for its removal, then admit normally
+                self.model.remove(k);
+            } else {
+                self.stats.rejected_exists_at_worker += 1;
+                return Ok(St::RejExists);
+            }
+        }
+        if false {
         }
         let limit = self.cfg.max_weight;
         let id = events.begin.map(|(id, _, _, _)| id).unwrap_or(0);
